@@ -54,7 +54,7 @@ def r20_1(ctx):
                    "%s changes a child list on a path that writes no parent link: the affected nodes' parent pointers no longer name the node whose child list contains them" % bad if bad
                    else "every path that changes a child list also writes the parent link of the affected children", "rcdom " + fname)
     # clone: a copied node must not inherit the original's parent link
-    it = [x for x in ctx.ast.crates["markup5ever_rcdom"] if x["k"] == "Fn" and x["name"] == "clone_with_subtree" and x.get("body") is not None]
+    it = [x for x in ctx.ast.walkable("markup5ever_rcdom") if x["k"] == "Fn" and x["name"] == "clone_with_subtree" and x.get("body") is not None]
     if it:
         n += 1
         txt = show_body(it[0]["body"])
@@ -102,7 +102,7 @@ def _pat_vars(p, out):
 def r20_3(ctx):
     """find-first loops: the condition guarding `result = Some(candidate)` depends on the candidate"""
     n = 0
-    for it in ctx.ast.crates["markup5ever_rcdom"]:
+    for it in ctx.ast.walkable("markup5ever_rcdom"):
         if it["k"] != "Fn" or it.get("body") is None:
             continue
         loops = []
@@ -200,9 +200,22 @@ def r20_2(ctx):
         ctx.ob("R20.2", "text-merge-before-create/" + fname.split("::")[-1], bad is None and n > 0,
                "a Text node is created although a preceding sibling exists and no merge was attempted" if bad else "%d text-creating paths try append_to_existing_text first whenever a previous sibling exists" % n)
     key, pcs = nfq.cells(ctx, AREA, "[TreeSink]::add_attrs_if_missing")
-    txt = " ".join(" ".join(nfq.texts(pc)) for pc in pcs)
-    ok = "existing_names" in txt or ("contains(a1.name)" in txt and "extend" in txt)
-    ctx.ob("R20.2", "add_attrs_if_missing-filters-by-name", "contains(a1.name)" in txt and ".extend" in txt, "new attributes are filtered by the set of existing *names* and appended (nothing is overwritten)")
+    bad = None
+    pushes = 0
+    for pc in nfq.feasible(pcs):
+        t = nfq.texts(pc)
+        if any(x.startswith("panic!") for x in t):
+            continue
+        names_from_existing = any(re.search(r"\.push\(item\.name\)$|\.insert\(item\.name\)$", x) for x in t) and any(x.startswith("loop-begin for _ in p1.data.attrs.iter()") for x in t)
+        for a, args in pc["actions"]:
+            if re.search(r"p1\.data\.attrs\)?\.(push|insert)$", a):
+                pushes += 1
+                guarded = any((not v) and re.search(r"\.contains\(item\.name\)(#\d+)?$", g) for g, v in pc["guards"].items())
+                if not (guarded and names_from_existing):
+                    bad = "an attribute is added to the element although %s" % ("its name was not tested against the existing names" if not guarded else "the tested set is not the set of the element's existing attribute names")
+            elif re.search(r"^(assign|set) p1\.data\.attrs|p1\.data\.attrs\)?\.(clear|remove|retain|truncate|swap|drain)$", a):
+                bad = "add_attrs_if_missing changes the element's existing attributes (%s)" % a
+    ctx.ob("R20.2", "add_attrs_if_missing-filters-by-name", bad is None and pushes >= 1, bad or "a new attribute is appended only when no existing attribute has its name; existing attributes are never touched")
 
 
 ORDER_BREAKING = ("swap_remove", "swap", "reverse", "sort", "sort_by", "sort_by_key", "sort_unstable", "sort_unstable_by", "sort_unstable_by_key", "rotate_left", "rotate_right",
